@@ -51,6 +51,7 @@ class TargetReport:
         self.cross_disagreements = []
         self.dropped_calls = 0
         self.native_calls = {}
+        self.extern_calls = {}         # assumed contracts (externs) actually exercised: name -> calls over all paths
         self.lock_scopes = set()
         self.solver_seconds = 0.0
         self.feas_calls = 0
@@ -75,6 +76,8 @@ class TargetReport:
         self.dropped_calls += other.dropped_calls
         for k, v in other.native_calls.items():
             self.native_calls[k] = self.native_calls.get(k, 0) + v
+        for k, v in other.extern_calls.items():
+            self.extern_calls[k] = self.extern_calls.get(k, 0) + v
         self.lock_scopes |= other.lock_scopes
         self.solver_seconds += other.solver_seconds
         self.feas_calls += other.feas_calls
@@ -330,6 +333,8 @@ def _account_path(target, rep, res, carve, tier, cross_check):
     ctx = res.ctx
     rep.feas_calls += ctx.solver_calls
     rep.solver_seconds += ctx.solver_seconds
+    for k, v in getattr(ctx, 'extern_calls', {}).items():
+        rep.extern_calls[k] = rep.extern_calls.get(k, 0) + v
     it = getattr(ctx, 'interp', None)
     if it is not None:
         rep.dropped_calls += it.dropped_calls
